@@ -837,6 +837,131 @@ pub open spec fn op_clone(op: Op, c: Op, m: Memo) -> bool {
 //@@ clone_named_properties
 //@@ deep_clone_op
 
+// ---- PageBuilder::clone_page (build.rs:57): "a page with the same boxes and rotation, the same operation sequence, and,
+// for every resource name those operations use, a resource ..."
+pub struct PagesRc { opaque: u8 }
+pub struct Content { opaque: u8 }
+pub struct Annot { opaque: u8 }
+//@@ struct Rectangle
+//@@ struct Page
+//@@ struct PageBuilder
+impl<T> MaybeRef<T> {
+//@@ MaybeRef::data
+}
+pub open spec fn maybe_data<T>(m: MaybeRef<T>) -> Shared<T> {
+    match m { MaybeRef::Direct(t) => t, MaybeRef::Indirect(r) => r.data }
+}
+// the operation sequence a content stream denotes (C08: units/ops; abstract here, as in units/build)
+pub uninterp spec fn content_ops(c: Content) -> Seq<Op>;
+// the EFFECTIVE (own or inherited, ISO 32000-1 7.7.3.4) attributes of a page.
+// proved in units/pagetree: Page::media_box/media_box_effective, Page::crop_box/crop_box_effective,
+// Page::resources/resources_effective -- `eff_*` stand for `effective(own entry, parent chain, selector)` of that unit
+// (the crop box falls back to the effective media box)
+pub uninterp spec fn eff_media_box(p: Page) -> Option<Rectangle>;
+pub uninterp spec fn eff_crop_box(p: Page) -> Option<Rectangle>;
+pub uninterp spec fn eff_resources(p: Page) -> Option<MaybeRef<Resources>>;
+impl Page {
+    #[verifier::external_body]
+    pub fn media_box(&self) -> (r: Result<Rectangle>)
+        ensures match eff_media_box(*self) { Some(b) => r == Ok::<Rectangle, PdfError>(b), None => r is Err }
+    { unimplemented!() }
+    #[verifier::external_body]
+    pub fn crop_box(&self) -> (r: Result<Rectangle>)
+        ensures match eff_crop_box(*self) { Some(b) => r == Ok::<Rectangle, PdfError>(b), None => r is Err }
+    { unimplemented!() }
+    #[verifier::external_body]
+    pub fn resources(&self) -> (r: Result<&MaybeRef<Resources>>)
+        ensures match eff_resources(*self) { Some(x) => r matches Ok(y) && *y == x, None => r is Err }
+    { unimplemented!() }
+}
+impl Resources {
+    // TRUSTED: #[derive(Default)] on Resources: six empty maps
+    #[verifier::external_body]
+    pub fn default() -> (r: Resources)
+        ensures r.graphics_states@ == Map::<Name, GraphicsStateParameters>::empty(), r.color_spaces@ == Map::<Name, ColorSpace>::empty(),
+            r.pattern@ == Map::<Name, Ref<Pattern>>::empty(), r.xobjects@ == Map::<Name, Ref<XObject>>::empty(),
+            r.fonts@ == Map::<Name, Lazy<Font>>::empty(), r.properties@ == Map::<Name, MaybeRef<Dictionary>>::empty()
+    { unimplemented!() }
+}
+// R7: `page.contents.as_ref().map(|content| content.operations(cloner)).transpose()?` -- the operations of the page's
+// content, read through the cloner's SOURCE resolver (the cloner is only read); None if the page has no content
+#[verifier::external_body]
+pub fn hoist_contents_ops(contents: &Option<Content>, cloner: &AnyCloner) -> (r: Result<Option<Vec<Op>>>)
+    ensures match *contents { None => r matches Ok(None), Some(c) => r matches Ok(Some(v)) ==> v@ == content_ops(c) }, *contents is Some ==> !(r matches Ok(None))
+{ unimplemented!() /* contents.as_ref().map(|content| content.operations(cloner)).transpose() */ }
+
+// the operations of `b` are those of `a`, one for one and in order
+pub open spec fn ops_clone(a: Seq<Op>, b: Seq<Op>, m: Memo, n: int) -> bool {
+    forall|i: int| 0 <= i < n ==> op_clone(#[trigger] a[i], b[i], m)
+}
+// every resource the first n operations name is kept
+pub open spec fn ops_resources_kept(a: Seq<Op>, src: Resources, dst: Resources, m: Memo, n: int) -> bool {
+    forall|i: int| 0 <= i < n ==> (uses(#[trigger] a[i]) matches Some(u) ==> entry_kept(u.0, u.1, src, dst, m))
+}
+pub proof fn lemma_op_mono(a: Op, b: Op, m1: Memo, m2: Memo)
+    ensures op_clone(a, b, m1) && submap(m1, m2) ==> op_clone(a, b, m2)
+{
+    if op_clone(a, b, m1) && submap(m1, m2) {
+        match a {
+            Op::BeginMarkedContent { tag, properties } => { properties.lemma_mono(&(b->BeginMarkedContent_properties), m1, m2); }
+            Op::MarkedContentPoint { tag, properties } => { properties.lemma_mono(&(b->MarkedContentPoint_properties), m1, m2); }
+            _ => {}
+        }
+    }
+}
+pub proof fn lemma_ops_mono(a: Seq<Op>, b: Seq<Op>, m1: Memo, m2: Memo, n: int)
+    ensures ops_clone(a, b, m1, n) && submap(m1, m2) ==> ops_clone(a, b, m2, n)
+{
+    if ops_clone(a, b, m1, n) && submap(m1, m2) {
+        assert forall|i: int| 0 <= i < n implies op_clone(#[trigger] a[i], b[i], m2) by { lemma_op_mono(a[i], b[i], m1, m2); }
+    }
+}
+// a name that was present stays present when the collected entries are kept, and what is present is a clone under the
+// memo `pruned_of` speaks about
+pub proof fn lemma_entry_kept_step(cat: Cat, name: Name, src: Resources, d1: Resources, d2: Resources, m1: Memo, m2: Memo)
+    ensures entry_kept(cat, name, src, d1, m1) && resources_kept(d1, d2) && pruned_of(src, d2, m2) ==> entry_kept(cat, name, src, d2, m2)
+{
+    if entry_kept(cat, name, src, d1, m1) && resources_kept(d1, d2) && pruned_of(src, d2, m2) {
+        match cat {
+            Cat::ExtGState => { if src.graphics_states@.dom().contains(name) { assert(d1.graphics_states@.dom().contains(name)); assert(d2.graphics_states@.dom().contains(name)); } }
+            Cat::ColorSpace => { if src.color_spaces@.dom().contains(name) { assert(d1.color_spaces@.dom().contains(name)); assert(d2.color_spaces@.dom().contains(name)); } }
+            Cat::Pattern => { if src.pattern@.dom().contains(name) { assert(d1.pattern@.dom().contains(name)); assert(d2.pattern@.dom().contains(name)); } }
+            Cat::XObject => { if src.xobjects@.dom().contains(name) { assert(d1.xobjects@.dom().contains(name)); assert(d2.xobjects@.dom().contains(name)); } }
+            Cat::Font => { if src.fonts@.dom().contains(name) { assert(d1.fonts@.dom().contains(name)); assert(d2.fonts@.dom().contains(name)); } }
+            Cat::Properties => { if src.properties@.dom().contains(name) { assert(d1.properties@.dom().contains(name)); assert(d2.properties@.dom().contains(name)); } }
+            Cat::Shading => {}
+        }
+    }
+}
+pub proof fn lemma_ops_resources_step(a: Seq<Op>, src: Resources, d1: Resources, d2: Resources, m1: Memo, m2: Memo, n: int)
+    ensures ops_resources_kept(a, src, d1, m1, n) && resources_kept(d1, d2) && pruned_of(src, d2, m2) ==> ops_resources_kept(a, src, d2, m2, n)
+{
+    if ops_resources_kept(a, src, d1, m1, n) && resources_kept(d1, d2) && pruned_of(src, d2, m2) {
+        assert forall|i: int| 0 <= i < n implies (uses(#[trigger] a[i]) matches Some(u) ==> entry_kept(u.0, u.1, src, d2, m2)) by {
+            match uses(a[i]) { Some(u) => { lemma_entry_kept_step(u.0, u.1, src, d1, d2, m1, m2); } None => {} }
+        }
+    }
+}
+pub proof fn lemma_resources_kept_refl(d: Resources) ensures resources_kept(d, d) {}
+// what C20 says of the builder made from a page (`b`), under the memo `m`
+pub open spec fn page_cloned(p: Page, b: PageBuilder, m: Memo) -> bool {
+    // "the same boxes and rotation": the page's EFFECTIVE boxes (the new page hangs under a new root and inherits nothing)
+    &&& b.media_box == eff_media_box(p) && b.media_box is Some
+    &&& b.crop_box == eff_crop_box(p) && b.crop_box is Some
+    &&& b.trim_box == p.trim_box
+    &&& b.rotate == p.rotate
+    // "the same operation sequence": one for one, in order
+    &&& match p.contents { None => b.ops@.len() == 0, Some(c) => b.ops@.len() == content_ops(c).len() && ops_clone(content_ops(c), b.ops@, m, b.ops@.len() as int) }
+    // "for every resource name those operations use, a resource ...": of the page's EFFECTIVE resources; and nothing but them
+    &&& eff_resources(p) matches Some(mr) && pruned_of(*maybe_data(mr), b.resources, m)
+        && (p.contents matches Some(c) ==> ops_resources_kept(content_ops(c), *maybe_data(mr), b.resources, m, content_ops(c).len() as int))
+    // the entries that hold references go through the cloner
+    &&& p.metadata.is_clone(&b.metadata, m) && p.lgi.is_clone(&b.lgi, m) && p.vp.is_clone(&b.vp, m) && dict_clone(p.other, b.other, m)
+}
+impl PageBuilder {
+//@@ PageBuilder::clone_page
+}
+
 
 // ====================================================================================================================
 // WORLD B: the real Importer (`impl Cloner for Importer`, build.rs) over an abstract element type
